@@ -6,3 +6,4 @@ open Neutrino.BM
 #print axioms C19_rollback_store
 #print axioms C19_disconnected_step
 #print axioms C19_backlog_shape
+#print axioms C19_disconnected
